@@ -3,7 +3,7 @@
 BASE = dict(
     Tasks=["t1", "t2"], InitMax=1, MaxObjs=3, Budget=4, Lifo=False,
     NPre=0, NPost=0, NPc=0, AsyncPre=[], AsyncPost=[], AsyncPc=[],
-    GetModes=["nb", "bl"], CreateTO="none", RecycleTO="none", HasRuntime=True,
+    GetModes=["nb", "bl"], CreateTO=["none"], RecycleTO=["none"], HasRuntime=True,
     ResizeTargets=[], AllowClose=False, AllowRetain=False, AllowTake=False, AllowDropPool=False,
     AllowFail=True, AllowSuspend=True, AllowCancel=True, AllowPanic=False, ThreadLevel=True,
 )
@@ -101,11 +101,11 @@ PROPS = {
         "invariants": ["Inv_C04a", "Inv_C09b"], "actprops": [], "preds": ["C04a", "C04b", "C04c"],
         "configs": {
             "quick": [
-                ("sync", C(Tasks=["t1"], InitMax=2, Budget=5, NPre=1, NPost=1, NPc=1, ThreadLevel=False, CreateTO="finite", RecycleTO="finite"), True),
+                ("sync", C(Tasks=["t1"], InitMax=2, Budget=5, NPre=1, NPost=1, NPc=1, ThreadLevel=False, CreateTO=["finite"], RecycleTO=["finite"]), True),
                 ("async2", C(InitMax=1, Budget=3, NPre=2, AsyncPre=[2], NPost=2, AsyncPost=[1], NPc=2, AsyncPc=[2], ThreadLevel=False, Lifo=True), True),
             ],
             "thorough": [
-                ("sync", C(InitMax=2, Budget=5, NPre=1, NPost=1, NPc=1, ThreadLevel=False, CreateTO="finite", RecycleTO="finite"), True),
+                ("sync", C(InitMax=2, Budget=5, NPre=1, NPost=1, NPc=1, ThreadLevel=False, CreateTO=["finite"], RecycleTO=["finite"]), True),
                 ("async2", C(InitMax=2, Budget=4, NPre=2, AsyncPre=[2], NPost=2, AsyncPost=[1], NPc=2, AsyncPc=[2], ThreadLevel=False, Lifo=True), True),
                 ("thread", C(InitMax=1, Budget=3, NPre=1, NPost=1, NPc=1, AsyncPost=[1]), True),
             ],
@@ -239,26 +239,26 @@ PROPS["C10"] = {
     "configs": {
         "quick": [
             {"name": "build", "cases": "build", "spec": "ManagedBuild.tla", "invariants": ["Total"]},
-            ("rt", C(InitMax=1, Budget=3, GetModes=["nb", "bl", "timed"], CreateTO="finite", RecycleTO="finite", AllowFail=False, AllowCancel=False), True),
-            ("zero", C(InitMax=1, Budget=3, GetModes=["nb", "timed"], CreateTO="zero", RecycleTO="zero", AllowCancel=False), True),
+            ("rt", C(InitMax=1, Budget=3, GetModes=["nb", "bl", "timed"], CreateTO=["finite"], RecycleTO=["finite"], AllowFail=False, AllowCancel=False), True),
+            ("zero", C(InitMax=1, Budget=3, GetModes=["nb", "timed"], CreateTO=["zero"], RecycleTO=["zero"], AllowCancel=False), True),
             ("nort_wait", C(InitMax=1, Budget=3, GetModes=["nb", "bl", "timed"], HasRuntime=False, AllowCancel=False), True),
-            ("nort_create", C(InitMax=1, Budget=3, GetModes=["nb", "bl"], CreateTO="finite", HasRuntime=False, AllowCancel=False, AllowSuspend=False), True),
-            ("nort_recycle", C(InitMax=1, Budget=3, GetModes=["nb", "bl"], RecycleTO="finite", HasRuntime=False, AllowCancel=False, AllowSuspend=False), True),
-            ("poollevel", C(Tasks=["t1"], InitMax=1, Budget=4, GetModes=["timed"], CreateTO="finite", RecycleTO="finite", AllowCancel=False, ThreadLevel=False), True,
-             {"hcfg": {"pool_level": True, "pool_wait": "timed"}}),
+            ("nort_create", C(InitMax=1, Budget=3, GetModes=["nb", "bl"], CreateTO=["none", "finite"], HasRuntime=False, AllowCancel=False, AllowSuspend=False), True),
+            ("nort_recycle", C(InitMax=1, Budget=3, GetModes=["nb", "bl"], RecycleTO=["none", "finite"], HasRuntime=False, AllowCancel=False, AllowSuspend=False), True),
+            ("poollevel", C(Tasks=["t1"], InitMax=1, Budget=4, GetModes=["timed"], CreateTO=["finite"], RecycleTO=["finite"], AllowCancel=False, ThreadLevel=False), True,
+             {"hcfg": {"pool_level": True, "pool_wait": "timed", "pool_cto": "finite", "pool_rto": "finite"}}),
             ("u_rt", C(MaxSize=1, NObjs=2, Budget=3, GetModes=["try", "bl", "timed"], HasRuntime=True, AllowTake=False, AllowRemove=False), True, U),
             ("u_nort", C(MaxSize=1, Preload=1, NObjs=1, Budget=3, GetModes=["try", "bl", "timed"], HasRuntime=False, AllowAdd=False), True, U),
         ],
         "thorough": [
             {"name": "build", "cases": "build", "spec": "ManagedBuild.tla", "invariants": ["Total"]},
-            ("rt", C(InitMax=1, Budget=4, GetModes=["nb", "bl", "timed"], CreateTO="finite", RecycleTO="finite"), True),
-            ("rt2", C(InitMax=2, Budget=4, GetModes=["bl", "timed"], CreateTO="finite", RecycleTO="finite", AllowFail=False, NPost=1, AsyncPost=[1]), True),
-            ("zero", C(InitMax=1, Budget=4, GetModes=["nb", "timed"], CreateTO="zero", RecycleTO="zero"), True),
+            ("rt", C(InitMax=1, Budget=4, GetModes=["nb", "bl", "timed"], CreateTO=["finite"], RecycleTO=["finite"]), True),
+            ("rt2", C(InitMax=2, Budget=4, GetModes=["bl", "timed"], CreateTO=["finite"], RecycleTO=["finite"], AllowFail=False, NPost=1, AsyncPost=[1]), True),
+            ("zero", C(InitMax=1, Budget=4, GetModes=["nb", "timed"], CreateTO=["zero"], RecycleTO=["zero"]), True),
             ("nort_wait", C(InitMax=1, Budget=4, GetModes=["nb", "bl", "timed"], HasRuntime=False), True),
-            ("nort_create", C(InitMax=1, Budget=4, GetModes=["nb", "bl"], CreateTO="finite", HasRuntime=False, AllowSuspend=False), True),
-            ("nort_recycle", C(InitMax=1, Budget=4, GetModes=["nb", "bl"], RecycleTO="finite", HasRuntime=False, AllowSuspend=False), True),
-            ("poollevel", C(Tasks=["t1"], InitMax=2, Budget=5, GetModes=["timed"], CreateTO="finite", RecycleTO="finite", ThreadLevel=False), True,
-             {"hcfg": {"pool_level": True, "pool_wait": "timed"}}),
+            ("nort_create", C(InitMax=1, Budget=4, GetModes=["nb", "bl"], CreateTO=["none", "zero", "finite"], HasRuntime=False, AllowSuspend=False), True),
+            ("nort_recycle", C(InitMax=2, Budget=4, GetModes=["nb", "bl"], RecycleTO=["none", "zero", "finite"], HasRuntime=False, AllowSuspend=False), True),
+            ("poollevel", C(Tasks=["t1"], InitMax=2, Budget=5, GetModes=["timed"], CreateTO=["finite"], RecycleTO=["finite"], ThreadLevel=False), True,
+             {"hcfg": {"pool_level": True, "pool_wait": "timed", "pool_cto": "finite", "pool_rto": "finite"}}),
             ("u_rt", C(MaxSize=2, NObjs=2, Budget=4, GetModes=["try", "bl", "timed"], HasRuntime=True), True, U),
             ("u_nort", C(MaxSize=1, Preload=1, NObjs=2, Budget=4, GetModes=["try", "bl", "timed"], HasRuntime=False), True, U),
         ],
